@@ -39,6 +39,11 @@ fn funs_of(prop: &str) -> &'static [u16] {
     }
 }
 
+/// index of the same-type pair S -> S (the first 11 pairs), or 0
+fn pair_of_same(l: L) -> u16 {
+    (0..NPAIRS as u16).find(|i| { let (s, d, _) = pair_info(*i as usize); s == l && d == l }).unwrap_or(0)
+}
+
 fn pairs_for(op: u16) -> Vec<u16> {
     (0..NPAIRS as u16).filter(|i| accepts(pair_info(*i as usize).2, op)).collect()
 }
@@ -227,8 +232,22 @@ fn operands(prop: &str, op: u16, sl: L, dl: L, mode: usize, ia: Ing, ib: Ing, r1
                 _ => [0, one, one * 2 & sl.mask(), one / 2, one + 1, one - 1, one * 10 & sl.mask(), sl.raw_max(), 1, one.wrapping_neg() & sl.mask(), one * 3 & sl.mask()][(r1 % 11) as usize],
             };
             let bv = sl.val(base);
-            let expo = match (mode / 4) % 4 {
-                0 => pattern(sl, ib),
+            let expo = match if mode >= 40 { 4 } else { (mode / 4) % 4 } {
+                4 if sl == dl && bv.is_pos() => {
+                    // the intermediate product ln(x) * y at the ends of the type: y = T / L -+ ulps with L the
+                    // library's own ln(x) (a high-precision ln misses the exact end by many ulps of the product)
+                    let lc = Case { op: LN, lay: sl.idx() as u16, lay2: pair_of_same(sl), a: base, ..Case::default() };
+                    let lraw = exec(&lc, SOFT_LIMIT).iter().find(|(n, _)| *n == "result").and_then(|(_, o)| if let Out::V(v) = o { Some(*v) } else { None });
+                    match lraw.map(|v| dl.val(v)) {
+                        Some(lv) if !lv.is_zero() => {
+                            let t = if (r2 >> 60) & 1 == 0 { dl.lo() } else { dl.hi() };
+                            let q = t.shl(dl.f).div_trunc(&lv).add_i64(((r1 >> 50) % 5) as i64 - 2);
+                            sl.wrap(&q)
+                        }
+                        _ => pattern(sl, ib),
+                    }
+                }
+                0 | 4 => pattern(sl, ib),
                 1 if bv.is_pos() && base != one => {
                     // uniform in +-(threshold / |ln base|)
                     let thr = mp::ln2().mul(&Big::from_u64(dl.int_bits() as u64));
